@@ -216,6 +216,13 @@ def Num.cast (t : Ty) (a : Num) : M Num :=
 /-- `int(a)` -/
 def Num.int (a : Num) : M Num := return ⟨.py, a.v⟩
 
+/-- `math.ceil(a)` of an *integer* operand: a Python int is returned as it is (`int.__ceil__`); a NumPy integer has no
+    `__ceil__` and goes through `float(a)`, which is exact up to 2^53 in magnitude (beyond: outside the fragment) -/
+def Num.ceil (a : Num) : M Num :=
+  match a.ty with
+  | .py => .ok a
+  | _ => if -9007199254740992 ≤ a.v ∧ a.v ≤ 9007199254740992 then .ok ⟨.py, a.v⟩ else .error .unsupported
+
 /-- `int(b)` / a `bool` used as a number -/
 def ofBool (b : Bool) : Num := ⟨.py, if b then 1 else 0⟩
 
@@ -253,6 +260,12 @@ def pyIndex {α : Type} (l : List α) (i : Num) : M α :=
   else match l[k.toNat]? with
     | some x => .ok x
     | none => .error .index
+
+/-- `l[i] = v` (negative indices count from the end; `IndexError` outside the list) -/
+def pySetItem {α : Type} (l : List α) (i : Num) (v : α) : M (List α) :=
+  let k : Int := if i.v < 0 then i.v + l.length else i.v
+  if k < 0 then .error .index
+  else if k.toNat < l.length then .ok (l.set k.toNat v) else .error .index
 
 /-- `l * n` -/
 def pyRepeat {α : Type} (l : List α) (n : Num) : List α :=
